@@ -340,6 +340,18 @@ def extract_bits(repo):
     hash_word('EntityAny', 'hash_word')
     hash_word('EntityDirectAny', 'dhash_word')
 
+    # --- entity.rs / version.rs: == on handles is structural (derived on the two untyped handles and on the two
+    #     version newtypes; the typed handles compare their inner untyped handle), so it is equality of the bit pair
+    vsrc = strip_comments(open(os.path.join(repo, 'src/version.rs')).read())
+    def derives(src, struct, fields):
+        m = re.search(r'#\[derive\(([^)]*)\)\]\s*pub struct %s \{\s*%s\s*\}' % (struct, fields), src)
+        return bool(m) and {'Eq', 'PartialEq'} <= set(x.strip() for x in m.group(1).split(','))
+    eq_ok = (derives(ent, 'EntityAny', r'key: u32,\s*version: SlotVersion,') and derives(ent, 'EntityDirectAny', r'key: u32,\s*version: ArchetypeVersion,')
+             and derives(vsrc, 'SlotVersion', r'version: NonZeroU32,') and derives(vsrc, 'ArchetypeVersion', r'version: NonZeroU32,')
+             and all(norm(fn_body(ent, 'eq', within=r'impl<A: Archetype> PartialEq for ' + re.escape(t) + r'\s*\{')) == 'self.inner == other.inner' for t in ('Entity<A>', 'EntityDirect<A>'))
+             and len(re.findall(r'PartialEq\s+for', ent + vsrc)) == 2 and len(re.findall(r'\bfn (?:eq|ne)\b', ent + vsrc)) == 2)
+    out.append('Definition handle_eq_is_structural : bool := %s.' % ('true' if eq_ok else 'false'))
+
     # --- entity.rs: from_raw accepts exactly the non-zero versions
     body = norm(fn_body(ent, 'from_raw', within=r'impl\s+EntityAny\s*\{'))
     if not re.search(r'let \(key, version\) = raw; let version = SlotVersion::new\(NonZeroU32::new\(version\)\.ok_or\(EcsError::InvalidRawEntity\)\?\); Ok\(Self \{ key, version \}\)', body):
